@@ -21,14 +21,6 @@ impl<const B: Word> Repr<B> {
     pub fn is_zero(&self) -> (r: bool)
         ensures r == (self.significand.v() == 0 && self.exponent == 0)
     { unimplemented!() }
-    /// repr.rs `Repr::digits_ub`: "Get the number of the upper bound of digits in the significand" computed from the f32
-    /// estimate `log2_bounds().1` (`log as usize + 1`).  ASSUMED enclosure (f32 arithmetic, not verified): the result is
-    /// not below the exact number of digits, and (generously) at most twice that plus 2 -- the upper bound is only used to
-    /// rule out usize overflow in `digits_ub + 1 + precision`; 0 for a zero significand.  Panics on infinities.
-    #[verifier::external_body]
-    pub fn digits_ub(&self) -> (r: usize)
-        requires B >= 2, !(self.significand.v() == 0 && self.exponent != 0)
-        ensures r >= ndigits(B as int, self.significand.v()), r <= 2 * ndigits(B as int, self.significand.v()) + 2,
-            self.significand.v() == 0 ==> r == 0
-    { unimplemented!() }
+    // `Repr::digits_ub` (f32 over-estimate of the digit count): stub in lib/round_float_repr.rs (ASSUMED enclosure
+    // digits <= digits_ub <= 2*digits + 2, 0 for a zero significand)
 }
